@@ -263,6 +263,9 @@ func rulesC07(e *Engine, r *Report) {
 	e.checkDayLoop(r, "R07.9")
 	// ---------------------------------------------------------------- R07.10
 	e.shareRule(r, "C10", "R10.6", "R07.10", "the chain continues from the files handled before the crash: the placeholders recovery queues for confirmed or receiver-only files stay linked as predecessors when Pop skips them - the loop unlinks what lies before a placeholder, never the placeholder itself")
+	// ---------------------------------------------------------------- R07.11
+	r.Rule("R07.11", "only the version the receiver holds is resumed: in the start-up recovery a cache entry is queued with a list of missing ranges (recoverFile.left computed from the receiver's partial) only on paths where the partial's hash equals the cache entry's hash - ranges held of another version of the name say nothing about which bytes of this one are missing")
+	checkResumeSameVersion(e, r, "R07.11")
 }
 
 // outermostLoop returns the header and back-edge terminators of the outermost
@@ -471,4 +474,28 @@ func (e *Engine) checkGapScan(r *Report, rule string) {
 		}
 		r.Min(rule, "gap-scan positions found", found, 2)
 	}
+}
+
+// checkResumeSameVersion: shared by R07.11, R08.9 and R11.9.
+func checkResumeSameVersion(e *Engine, r *Report, rule string) {
+	top := needFn(e, r, rule, "client.(*Broker).recover")
+	if top == nil {
+		return
+	}
+	n := 0
+	for _, fn := range WithClosures(top) {
+		if fn == top {
+			continue
+		}
+		for _, in := range e.findInstrs(fn, "store(&new(client.recoverFile).left = §)", false) {
+			n++
+			cls := labeler(
+				C("(§.Hash == invoke(sts.Cached.GetHash)(p0))", "sameVersion"),
+				C("(invoke(sts.Cached.GetHash)(p0) == §.Hash)", "sameVersion"),
+			)
+			e.Guarded(r, rule, fmt.Sprintf("%s: missing ranges are taken from a partial of the same hash #%d", e.ShortName(fn), n), fn, only(in), cls,
+				func(l LabelSet) bool { return l.Has("sameVersion") }, "partial.Hash == cached.GetHash()")
+		}
+	}
+	r.Min(rule, "resumption sites in recover's cache walk", n, 1)
 }
